@@ -8,6 +8,8 @@ PYTHONHASHSEED values and the canonical per-step digests are compared.
 The clock law of every whole run (step k shows start + k*dt) is checked by Lean on the way."""
 from __future__ import annotations
 
+from . import framework as fw  # noqa: E402
+
 import json
 import os
 import random
@@ -82,5 +84,5 @@ def worker(args) -> Dict[str, Any]:
             findings.append({"id": r["id"], "kind": "driver-error", "record": r, "text": [r["raised"]]})
         if r["pyMsgs"]:
             findings.append({"id": r["id"], "kind": "mon", "record": r, "text": r["pyMsgs"][:6]})
-    return {"n": len(recs), "steps": sum(r["size"] for r in recs) * 3, "rows": 3 * len(recs), "findings": findings[:20], "n_findings": len(findings),
+    return {"n": len(recs), "steps": sum(r["size"] for r in recs) * 3, "rows": 3 * len(recs), "findings": fw.pick(findings, 20), "n_findings": len(findings),
             "shapes": sorted(shapes, key=str), "sample": recs[0]["meta"]}
